@@ -635,7 +635,8 @@ struct Oracle {
     }
 };
 
-// the C++ dereferences a disengaged / never-set sasl2AuthRequest on these inputs: never executed in-process
+// inputs on which onPasswordReply()/onSasl2Authenticated() would dereference a null saslServer / an unset sasl2AuthRequest:
+// never executed in-process
 struct UbGuard {
     bool live = false, stuck = false, saslNull = true, v2 = false, s2req = false, digestStep2 = false;
     bool plainStep0 = false;   // a PLAIN object has answered an empty <auth/> with an empty challenge and still waits for credentials
@@ -652,14 +653,8 @@ struct UbGuard {
             if (saslNull) return true;
             return f.checker.pendingIsPw[idx[i]] && f.checker.pending[idx[i]]->error() == QXmppPasswordReply::NoError && v2 && !s2req;
         }
-        if (!live || stuck) return false;
-        if (w[0] == "resp2" && !saslNull && digestStep2 && !s2req) return true;
-        if (stock && (w[0] == "resp1" || w[0] == "resp2") && !saslNull && plainStep0 && v2 && !s2req) {
-            // the password reply arrives within this step: success on a SASL2 exchange whose request has been reset by <abort/>
-            auto f2 = w[1].split(':');
-            if (f2[0] == "c" && f2.size() == 3) return table.contains(f2[1]) && table[f2[1]] == f2[2];
-            if (f2[0] == "z" && f2.size() == 4) return table.contains(f2[2]) && table[f2[2]] == f2[3];
-        }
+        // (since repo commit b1ba6cb a SASL2 <response/> without a SASL2 request in progress is refused, and <abort/> drops the
+        // SASL object with its replies: the two conditions above are a safety net that no script reaches any more)
         return false;
     }
     void sent(const QStringList &w, bool open)
@@ -670,7 +665,7 @@ struct UbGuard {
         if (!live) { stuck = true; return; }
         if (w[0] == "auth1" && knownMech(w[1])) { saslNull = false; v2 = false; s2req = false; digestStep2 = false; plainStep0 = false; }
         if (w[0] == "auth2" && knownMech(w[1])) { saslNull = false; v2 = true; s2req = true; digestStep2 = false; plainStep0 = false; }
-        if (w[0] == "abort2") s2req = false;
+        if (w[0] == "abort2") { s2req = false; saslNull = true; }
         if (w[0] == "resp1" || w[0] == "resp2") { digestStep2 = false; plainStep0 = false; }
     }
     void received(const QStringList &mine)
